@@ -104,6 +104,7 @@ class S(diff.DiffOperator):
             elif kdim < sm.kdim:
                 diff = sm.kdim - kdim
                 shift = np.pad(shift, [(0, 0)] * self.ndim + [(0, diff)])
+            shift = append_batch_axes(shift, sm.ndim)
 
             # apply (not inplace)
             opts = {
@@ -124,6 +125,7 @@ class S(diff.DiffOperator):
             elif kdim < sm.kdim:
                 diff = sm.kdim - kdim
                 shift = np.pad(shift, [(0, 0)] * self.ndim + [(0, diff)])
+            shift = append_batch_axes(shift, sm.ndim)
 
             # kgrid
             kgrid = sm.options.get("kgrid") or self.kgrid
@@ -286,6 +288,15 @@ def shift1d(states, n, *, inplace=False, nmax=None):
         states[..., :-n, 1] = 0
 
     return states
+
+
+def append_batch_axes(shift, ndim):
+    """align the shift's batch axes with the first axes of a state matrix with `ndim` batch axes"""
+    shift = np.asarray(shift)
+    nmiss = ndim - (shift.ndim - 1)
+    if nmiss > 0:
+        shift = shift.reshape(shift.shape[:-1] + (1,) * nmiss + shift.shape[-1:])
+    return shift
 
 
 def shiftnd(states, indices, shift, *, nmax=None, prune=True, tol=1e-8):
